@@ -121,7 +121,7 @@ Proof.
 Qed.
 
 Lemma inv_other s a s' d : SInv s ->
-  match a with LocalClose | StartAgain | SetHandler _ | PeerClose | PeerRead | PeerByte | RecvFault _ | WriteFault _ => True | _ => False end ->
+  match a with LocalClose | StartAgain | SetHandler _ | PeerClose | PeerRead | PeerPause | PeerByte | RecvFault _ | WriteFault _ => True | _ => False end ->
   sess_step s a = Some (s', d) -> SInv s' /\ flag_ok s s' d.
 Proof.
   intros I Ha H. des s. destruct I as [I1 I2 I3 I4 I5 I6 I7 I8 I9 J1 J2 J3 J4 J5 J6]. unfold flag_ok.
@@ -136,6 +136,7 @@ Proof.
   - destruct po; [|discriminate]. inversion H; subst; clear H; cbn. split; [fin|auto].
   - destruct (po && negb pr); [|discriminate]. inversion H; subst; clear H; cbn. split; [fin|auto].
   - destruct po; [|discriminate]. destruct (rl && negb rc && co); inversion H; subst; clear H; cbn; (split; [fin|auto]).
+  - destruct (po && pr); [|discriminate]. inversion H; subst; clear H; cbn. split; [fin|auto].
   - destruct (match k with RErr | RTimeout => true | _ => po end); [|discriminate].
     inversion H; subst; clear H; cbn. split; [fin|auto].
   - inversion H; subst; clear H; cbn. split; [fin|auto].
@@ -165,6 +166,7 @@ Theorem sess_step_inv s a s' d : SInv s -> sess_step s a = Some (s', d) -> SInv 
 Proof.
   intros I H. destruct a.
   - eapply inv_send; eauto.
+  - eapply inv_other; eauto; exact Logic.I.
   - eapply inv_other; eauto; exact Logic.I.
   - eapply inv_other; eauto; exact Logic.I.
   - eapply inv_other; eauto; exact Logic.I.
